@@ -907,6 +907,64 @@ func runC11(c *Ctx) {
 	c10end(c, m)
 	c10commitResult(c, m)
 	c10callback(c, m)
+	// a record reported failed (aborted) must not be in the log: the
+	// fail-only-when-safe rules of C02 are re-derived here
+	c02failers(c, m)
+	c11offsetsFlag(c, m)
+}
+
+// c11offsetsFlag: once the group's offsets are part of the transaction -
+// explicitly through AddOffsetsToTxn or implicitly through TxnOffsetCommit v5
+// (KIP-890 part 2) - offsetsAddedToTxn is set on every path, so that
+// EndTransaction issues the EndTxn even when nothing was produced.
+func c11offsetsFlag(c *Ctx, m *Module) {
+	rule := "offsets-in-txn-flag-set"
+	f := c.NeedFunc(m, "kgo.Client.commitTransactionOffsets")
+	if f == nil {
+		return
+	}
+	info := f.Info()
+	g := f.Graph()
+	fv := m.Field("kgo", "groupConsumer", "offsetsAddedToTxn")
+	var ifs *ast.IfStmt
+	for _, st := range f.Decl.Body.List {
+		if i, ok := st.(*ast.IfStmt); ok {
+			if u, ok := unparen(i.Cond).(*ast.UnaryExpr); ok && u.Op == token.NOT && sameField(fieldOfSel(info, u.X), fv) {
+				ifs = i
+			}
+		}
+	}
+	if ifs == nil {
+		c.Undecided(rule, f.Key+"#if !offsetsAddedToTxn", f.Pos(), m, "statement not found")
+		return
+	}
+	isSet := func(n ast.Node) bool {
+		as, ok := n.(*ast.AssignStmt)
+		if !ok {
+			return false
+		}
+		for _, st := range storesTo(as, info, fv, false) {
+			if v, isC := constBool(info, st.RHS); isC && v {
+				return true
+			}
+		}
+		return false
+	}
+	// paths that leave the arm normally (not the error return) must have set the flag
+	cl, _ := g.LocOf(ifs.Cond)
+	condBlk := g.C.Blocks[cl.B]
+	var done *cfg.Block
+	for _, b := range g.C.Blocks {
+		if b.Stmt == ast.Stmt(ifs) && b.Kind == cfg.KindIfDone {
+			done = b
+		}
+	}
+	path, found := g.FindPath(cl, SearchOpts{
+		Stop:      isSet,
+		EdgeOK:    func(from *cfg.Block, k int, to *cfg.Block) bool { return from != condBlk || k == 0 },
+		GoalBlock: func(b *cfg.Block) bool { return done != nil && b == done },
+	})
+	c.Check(!found, rule, f.Key+": flag set whenever the commit proceeds", ifs.Pos(), m, "", "the transactional offset commit can proceed without offsetsAddedToTxn = true ("+pathStr(path)+"): with KIP-890p2 (no AddOffsetsToTxn request) and nothing produced, EndTransaction sees nothing added, skips EndTxn and reports a commit while the offsets stay pending in an open transaction")
 }
 
 func c11endTransaction(c *Ctx, m *Module) {
